@@ -22,6 +22,7 @@ PROPS = {
         ],
         'crosscheck_functions': [],
         'ground': ['c14'],
+        'bounded': ['contracts.map_if:bounded_segment_is_valid'],
     },
     'C04': {
         'level': 'proof',
@@ -58,5 +59,14 @@ PROPS = {
                    'allow': 'ALLOW_C18', 'replay': {'hash-order': 'frames_replay.py'}},
         'explanation': 'modifies-frame / determinism obligations over every function of the package (tests, scripts, examples excluded), discharged by a '
                        'conservative syntactic analysis of the real AST; one obligation per (rule, module); a finding outside the reasoned allow-list refutes it',
+    },
+    'C15': {
+        'level': 'proof',
+        'functions': [
+            'pyx12.validation.contains_control_character',
+            'pyx12.map_if.element_if.is_valid',
+        ],
+        'crosscheck_functions': [],
+        'bounded': ['contracts.map_if:bounded_segment_is_valid'],
     },
 }
